@@ -504,6 +504,12 @@ func c14RandomFSR(g *genCtx) []byte {
 
 func c14OtherRec(g *genCtx) (byte, []byte) {
 	typ := []byte{0x02, 0x11, 0x12, 0xC0, 0x08, 0x10}[g.rng.Intn(6)]
+	if g.rng.Intn(3) == 0 { // any record type other than Full Sensor Record (01h), reserved and OEM values included
+		typ = byte(2 + g.rng.Intn(254))
+		if g.rng.Intn(8) == 0 {
+			typ = 0
+		}
+	}
 	n := g.rng.Intn(70)
 	switch g.rng.Intn(8) {
 	case 0:
